@@ -237,6 +237,18 @@ class World:
         del self.hot[:-6]
         return h
 
+    def _outdated(self, h):
+        ent = self.stale_entities[h]
+        d = self.mdib.descriptions.handle.get_one(h, allow_none=True)
+        if d is None:
+            return False
+        if d.DescriptorVersion != ent.descriptor.DescriptorVersion:
+            return True
+        if not ent.is_multi_state:
+            st = self.mdib.states.descriptor_handle.get_one(h, allow_none=True)
+            return st is not None and st.StateVersion != ent.state.StateVersion
+        return False
+
     def remember_entities(self):
         """An application fetches entities now and may write them (much) later: keep copies of a few, hot ones preferred."""
         r = self.rng
@@ -261,7 +273,7 @@ class World:
     # ---------------- script generation (type/state directed, 80 % enabled ops)
     def gen_script(self):
         r = self.rng
-        if r.random() < 0.3:
+        if r.random() < 0.4:
             self.remember_entities()
         x = r.random()
         tx = 'S' if x < 0.5 else ('C' if x < 0.7 else 'D')
@@ -383,8 +395,10 @@ class World:
                 cds = self.descr_handles(lambda d: d.is_context_descriptor)
                 stale = r.random() < 0.45
                 have = [h for h in self.stale_entities if h in alld]
+                # entities that really are outdated (the descriptor or a state was changed since they were fetched) first
+                ripe = [h for h in have if self._outdated(h)]
                 if stale and have:
-                    h = r.choice(have)
+                    h = r.choice(ripe) if (ripe and r.random() < 0.8) else r.choice(have)
                     how = r.choice(['keep', 'drop', 'add']) if h in cds else 'keep'
                     script['calls'].append(['writeEntity', h, r.randrange(1000), how, True])
                 elif cds and r.random() < 0.4:
